@@ -8,4 +8,4 @@ def run(tier, only=''):
                     'migration to the empty schema must remove everything; S1 and S2 are recipes plus symbolic choices of DDL '
                     'commands.', {'chains': 'length 2 (+ the final migration to the empty schema)'},
                     ['a chain with a refused step is outside the statement'],
-                    ['links are excluded from migration menus (the std stand-in lacks std::exclusive and link properties)'])
+                    ['link properties'])
